@@ -46,6 +46,7 @@ var scGuards = guardTable{
 }
 
 func runC08(r *engine.Run) {
+	r.Rule("CLONE-deep", "see C07: Clone() of every cached value type shares no reference with the receiver (a branch clone that shares the origin tracker lets a child block's SetOrigin rewrite the node the state cache holds for the parent block, under the readers' feet)")
 	r.Rule("COPY-lock", "every method of a struct of core/statecache that holds a mutex has a pointer receiver: a value receiver copies the struct (mutex, map header, counters) on every call without a lock - a data race with every committer and reader of that cache")
 	r.Rule("LOCK-ring", "see C20: lookups and commits of the state cache log through the in-memory core, from many goroutines at once; the ring cursor and slots are written only under the core's mutex in write mode")
 	r.Rule("LOCK-statecache", "guarded-by discipline over every function reachable from the exported methods of StateCache/BlockCache/TransactionCache/QueryBlockCache: plain maps and rewritable fields are accessed only with their owner's mutex held in the required mode (interprocedural must-lockset), counters updated through sync/atomic are never accessed plainly, constructor-only fields are never written afterwards; constructor contexts (object allocated in the same function) are exempt")
@@ -125,6 +126,7 @@ func runC08(r *engine.Run) {
 	whoLayers(r)
 	copyLock(r, "COPY-lock", pkgSC)
 	checkGuards(r, "LOCK-ring", exportedEntries(r, "LOCK-ring", pkgLog, map[string]bool{"MemCore": true, "MemLogger": true}), logOwners, logGuards)
+	cloneDeep(r)
 }
 
 func orderPublish(r *engine.Run, commit *ssa.Function) {
